@@ -64,11 +64,23 @@ func (w *World) contractFor(fi *FuncInfo) *Contract {
 		return c
 	}
 	if w.EmittedPaths[fi.Obj.Pkg().Path()] {
-		if c := w.Contracts["emitted."+fi.Obj.Name()]; c != nil {
+		return w.emittedContract(fi.Obj)
+	}
+	return nil
+}
+
+// emittedContract finds the `emitted func` contract of a function or method of an extracted package.
+func (w *World) emittedContract(fn *types.Func) *Contract {
+	if fn.Origin() != nil {
+		fn = fn.Origin()
+	}
+	sk := shortKey(fn) // pkg.Func or pkg.Type.Method
+	if i := strings.Index(sk, "."); i >= 0 {
+		if c := w.Contracts["emitted"+sk[i:]]; c != nil {
 			return c
 		}
 	}
-	return nil
+	return w.Contracts["emitted."+fn.Name()]
 }
 
 // VerifyFunc symbolically executes a function against its contract.
@@ -147,6 +159,9 @@ func (w *World) VerifyFunc(fi *FuncInfo, c *Contract, opts VerifyOpts) (res *Uni
 		}
 		p.vars[v] = val
 		p.Assume(ctx.typeInvariant(val))
+		if w.EmittedPaths[fi.Obj.Pkg().Path()] {
+			ex.requestWellFormed(p, val)
+		}
 		if cname != "" && cname != "_" {
 			p.entry[cname] = val
 		}
@@ -192,6 +207,10 @@ func (w *World) VerifyFunc(fi *FuncInfo, c *Contract, opts VerifyOpts) (res *Uni
 	if c != nil {
 		for _, r := range c.Requires {
 			p.Assume(ex.evalClause(p, r.E, true))
+		}
+		// entry-state lets are visible to at-call clauses and invariants
+		for _, l := range c.Lets {
+			p.names[l.Name] = ex.evalClauseValue(p, l.E)
 		}
 	}
 	if c != nil && len(c.Requires) > 0 {
